@@ -41,7 +41,7 @@ CLAIM = {"text": "inside the stated bound every defined run of generated Python 
          "technique": "bounded exhaustive differential execution against a reference interpreter", "engine": "K1"}
 
 HEAP_START = 0x10000000
-HANG_CPU_S = 0.1   # CPU-time budget of one generated-code run whose reference run ended within <= 200 block steps (microseconds of work)
+HANG_CPU_S = 0.03   # CPU-time budget of one generated-code run whose reference run ended within <= 200 block steps (microseconds of work)
 BATCH = {"binop": 128, "unop": 128, "const": 128, "cast": 128, "cmp": 64, "mem": 24, "cfg": 16, "l1k2": 96}
 
 
